@@ -803,7 +803,7 @@ func TestCheck(t *testing.T) {
 	rep.SelfCheck(t, scs[0], func() { prepared = map[string]*simkube.Store{} })
 	// Part B first: it is small, and its samples then make it into the merged evidence.
 	scs = append(runnerScenarios(t, rep), scs...)
+	defer stopServers()
 	rep.RunScenarios(t, scs)
-	stopServers()
 	rep.Write(t)
 }
